@@ -23,6 +23,14 @@ pub fn check_structure(spec: &CfmSpec) -> Check {
     let body = spec.encode();
     let m = no_panic("decode_clutter_filter_map", || decode_clutter_filter_map(&mut &body[..]))?
         .map_err(|e| Fail::new("cfm:wellformed-rejected", format!("{} segments: {:?}", spec.segments.len(), e)))?;
+    {
+        // the same bytes delivered in short reads must decode to the same map
+        let step = if body.len() > 100_000 { 4093 } else { 7 };
+        let mut r = crate::runner::Chunked::new(&body, step);
+        let mc = no_panic("decode_clutter_filter_map", || decode_clutter_filter_map(&mut r))?
+            .map_err(|e| Fail::new("cfm:decode-error-short-reads", format!("reader delivering {} bytes per read: {:?}", step, e)))?;
+        ensure!(mc == m, "cfm:depends-on-read-chunking", "map decoded from a reader delivering {} bytes per read differs from the slice decode", step);
+    }
     ensure_eq!(m.header.map_generation_date, spec.date, "cfm-layout:date@0");
     ensure_eq!(m.header.map_generation_time, spec.minutes, "cfm-layout:minutes@2");
     ensure_eq!(m.header.elevation_segment_count as usize, spec.segments.len(), "cfm-layout:segment_count@4");
@@ -105,7 +113,11 @@ pub fn cut_points(spec: &CfmSpec, body_len: usize, selectors: &[u16]) -> Vec<usi
 }
 
 pub fn check_case(c: &CfmCase) -> Check {
-    check_structure(&c.spec)?;
+    // history: for half of the cases the failing truncated decodes run *before* the structural comparison
+    let cuts_first = c.cut_selectors.len() % 2 == 1;
+    if !cuts_first {
+        check_structure(&c.spec)?;
+    }
     let body = c.spec.encode();
     // bound the truncation work on very large bodies
     let sel: &[u16] = if body.len() > 400_000 { &c.cut_selectors[..c.cut_selectors.len().min(8)] } else { &c.cut_selectors };
@@ -116,6 +128,9 @@ pub fn check_case(c: &CfmCase) -> Check {
     }
     for cut in cuts {
         check_prefix(&body, cut)?;
+    }
+    if cuts_first {
+        check_structure(&c.spec)?;
     }
     Ok(())
 }
